@@ -27,8 +27,9 @@
        C10_step2_owned, C10_history2_owned, C10_reachable2_owned (alphabet op2 of Tree/Script2.v), C10_duplicate_partial
    "leaves the content of every other file unchanged": the projection TREE of every other file g (fproj: names, stored
        types, attributes, character data, comments, order) is unchanged (C10_remove_file_other_tree); its TEXT is
-       unchanged iff no written element of g loses its whole content — proved in the direction KeepsSome -> same text
-       (C10_remove_file_other_text), witness of the other direction C10_other_text_witness: <X>..</X> becomes <X/>.
+       unchanged iff no written element of g loses its whole content: KeepsSome -> same text
+       (C10_remove_file_other_text), LosesAll somewhere -> strictly shorter text (C10_remove_file_other_text_differs),
+       witness C10_other_text_witness: <X>..</X> becomes <X/>.
        The property speaks of content, not text: no finding.
    "loads on its own": C10_file_self_contained = C10_text_is_projection (ser_heap = ser_elem of fproj on elements that
        are not hollow) composed with C01's file round trip; side conditions explicit: NoHollow, RootCanon (C01).
@@ -281,6 +282,25 @@ Theorem C10_remove_file_other_text :
     ser_heap T tab_el tab_at tab_en float_fmt fuel w' (Some g) (m_root x) indent inline =
     ser_heap T tab_el tab_at tab_en float_fmt fuel w (Some g) (m_root x) indent inline.
 Proof. exact remove_file_other_text. Qed.
+
+(* ... and ONLY then: if a written element of g has content all of which is sub-elements attributed to f alone
+   (LosesAll), the text of g gets strictly shorter.  Together with C10_remove_file_other_text this characterises exactly
+   when the text of another file changes. *)
+Theorem C10_remove_file_other_text_differs :
+  forall (T : tables) (m f : N) (w : world) (r : out unit) (w' : world) (x : model),
+  TreeInv w -> FilesInv T w ->
+  Known_root_last w (OpRemoveFile m f) = false -> Unowned w (OpRemoveFile m f) = false -> last_file w (OpRemoveFile m f) = false ->
+  (forall i n, Reach w (m_root x) i -> w_nodes w i = Some n -> n_name n = SHORT T -> n_files n = []) ->
+  m_remove_file T m f w = Val (r, w') -> model_b w m = Some x -> In f (m_files x) ->
+  forall g, g <> f ->
+  forall (tab_el tab_at tab_en : nametab) (float_fmt : N -> list N),
+  Attributed w (m_root x) g -> CharsLeaf T w ->
+  (exists i n, Proj T w (Some g) (m_root x) i /\ w_nodes w i = Some n /\ LosesAll w f n) ->
+  forall fuel indent inline s s',
+    ser_heap T tab_el tab_at tab_en float_fmt fuel w' (Some g) (m_root x) indent inline = Val s' ->
+    ser_heap T tab_el tab_at tab_en float_fmt fuel w (Some g) (m_root x) indent inline = Val s ->
+    (List.length s' < List.length s)%nat /\ s' <> s.
+Proof. exact remove_file_other_text_differs. Qed.
 
 (* [F] witness on the tiny table set: remove_file 0 changes the text of file 1 (ELEMENTS, whose only sub-element was
    in file 0 alone) while the projection tree of file 1 stays the same *)
